@@ -22,14 +22,14 @@ for d in sorted(glob.glob(os.path.join(VERIF, "seeded", "*"))):
     suite = steps.get("suite", {})
     rows.append((os.path.basename(d), m.get("property"), (m.get("summary") or "")[:150].replace("|", "/").replace("\n", " "),
                  "yes" if steps.get("demo_clean", {}).get("ok") and steps.get("demo_mutated", {}).get("ok") else "NO",
-                 ("pass" if suite.get("ok") else "lost %s" % suite.get("n_lost")) if suite else "not run",
+                 (("pass" if suite.get("ok") else "lost %s" % suite.get("n_lost")) + " (%s)" % suite.get("scope", "full")) if suite else "not run",
                  ("**detected** by %s (%s)" % (",".join(det), ", ".join(clauses)[:90]) if det else
                   ("not detected (%s quick)" % ",".join(und) if und else "check not run / machinery"))))
     if "--write-meta" in sys.argv and c:
         m["confirmation"] = {"tool": "tools/seed_confirm.py (scratch worktree of /repo HEAD %s; demo on clean and changed tree; "
                                      "test suite vs BASELINE.stable_pass; ./check with VERIF_REPO)" % c.get("repo_head"),
                              "demo_clean_exit0": steps.get("demo_clean", {}).get("ok"), "demo_changed_fails": steps.get("demo_mutated", {}).get("ok"),
-                             "suite": ({"ok": suite.get("ok"), "lost": suite.get("lost")} if suite else "not run by me; the author's run is in tests_run"),
+                             "suite": ({"ok": suite.get("ok"), "lost": suite.get("lost"), "scope": suite.get("scope", "full")} if suite else "not run by me; the author's run is in tests_run"),
                              "checks": {p: {"exit": r.get("rc"), "violation_lines": r.get("n_violation_lines"), "tier": r.get("tier")} for p, r in chk.items()}}
         json.dump(m, open(mp, "w"), indent=1)
 print("| seed | property | change | demo clean ok / changed fails | suite | result of the registered check |")
